@@ -122,4 +122,19 @@ theorem C17_dropped_options_stay_dropped (inner : Chan) (s : Option Interceptor)
       ((.int false layer (ccOf Gen.unaryCCUsesUnwrap inner) c) :: (invoke inner { c with opts := 0 }).1, (invoke inner { c with opts := 0 }).2) := by
   simp [invoke, logDrop]
 
+/-- an interceptor that forwards under another method name reaches the next layer (and, through any
+    number of pass-through layers, the base channel) under that name — unary and stream alike -/
+theorem C17_renamed_method_reaches_next (inner : Chan) (u s : Option Interceptor) (c : Call) (layer : Nat) :
+    invoke (.wrapped inner (some (logRename false layer)) s) c =
+      ((.int false layer (ccOf Gen.unaryCCUsesUnwrap inner) c) :: (invoke inner { c with method := c.method + 1 }).1,
+        (invoke inner { c with method := c.method + 1 }).2) ∧
+    newStream (.wrapped inner u (some (logRename true layer))) c =
+      ((.int true layer (ccOf Gen.streamCCUsesUnwrap inner) c) :: (newStream inner { c with method := c.method + 1 }).1,
+        (newStream inner { c with method := c.method + 1 }).2) := by
+  constructor <;> simp [invoke, newStream, logRename]
+
+/-- witness: the base of a two-layer stack sees the name the outer layer forwarded, not the caller's -/
+example : newStream (intercept (intercept (.base false 3) none (some (logPass true 0))) none (some (logRename true 1))) ⟨0, 2⟩
+    = ([.int true 1 none ⟨0, 2⟩, .int true 0 none ⟨1, 2⟩, .base true 3 ⟨1, 2⟩], 0) := by decide
+
 end InterceptClient
